@@ -15,7 +15,7 @@ from penman.graph import Graph
 from penman.model import Model
 from penman.tree import Tree
 
-from .base import check, classifier, get_model
+from .base import check, classifier, get_model, with_watchdog, Timeout
 from . import specs, gens
 
 
@@ -38,7 +38,10 @@ def c13_role(args):
     m, noop = table(args)
     r = args['role']
     has = m._has_role
-    c = m.canonicalize_role(r)
+    try:
+        c = with_watchdog(lambda: m.canonicalize_role(r), 3)
+    except Timeout:
+        return 'canonicalize_role(%r) did not terminate' % (r,)
     rc = r if (r == '/' or r.startswith(':')) else ':' + r
     norms = m.normalizations
     if m.canonicalize_role(c) != c:
@@ -159,7 +162,7 @@ def run_C13(R):
         for b in bases:
             for k in range(5):
                 R.check('C13.role', {'table': tb, 'role': b + '-of' * k})
-    pool = [':a', ':b', ':a-of', ':b-of-of', ':c[0-9]', ':x-of', ':q.*', ':y-of-of-of']
+    pool = [':a', ':b', ':a-of', ':b-of-of', ':c[0-9]', ':x-of', ':q.*', ':y-of-of-of', ':z-.*']
     for i in range(60 if R.quick else 600):
         roles = R.rnd.sample(pool, R.rnd.randint(0, 4))
         norms = []
@@ -172,6 +175,10 @@ def run_C13(R):
     # witnesses of the recorded findings N6 and N7 stay in the corpus
     R.check('C13.role', {'table': {'roles': [], 'norms': [[':a', ':b'], [':b', ':c']]}, 'role': ':a'})
     R.check('C13.role', {'table': {'roles': [':x', ':x-of'], 'norms': []}, 'role': ':x'})
+    # pattern roles that also match the -of extensions (termination)
+    for r in (':prep', ':prep-x', ':prep-of', ':p', ':prep-x-of-of'):
+        R.check('C13.role', {'table': {'roles': [':prep-.*'], 'norms': []}, 'role': r})
+        R.check('C13.role', {'table': {'roles': [':.*-of'], 'norms': []}, 'role': r})
     for it in range(400 if R.quick else 6000):
         node = gens.random_tree(R.rnd, maxn=6, maxd=3,
                                 roles=[':ARG0-of-of', ':mod-of', ':domain-of', 'ARG1', ':consist',
